@@ -310,6 +310,52 @@ Section Generic.
     rewrite !map_length, !map2_length by auto. repeat split; auto.
     intros ->. exact Hl.
   Qed.
+  (* ---------- cadence of a run continued from any state (a resumed run, under ANY option record) ---------- *)
+  Lemma loop_cadence fuel : forall o st stf evs,
+    LOOP fuel o st = Ok (stf, evs) ->
+    exists n, s_iter _ _ _ stf = s_iter _ _ _ st + n /\ n <> 0
+      /\ map (fun c => (c_iter _ _ _ c, c_evidence _ _ _ c)) evs
+         = map (fun i => (i, None)) (cadence o (s_iter _ _ _ st) n).
+  Proof.
+    induction fuel as [|f IH]; intros o st stf evs H; [discriminate|].
+    cbn [loop] in H.
+    destruct (STEP o st) as [[[st1 brk] ev1]| |] eqn:Hs; try discriminate.
+    pose proof (step_shape _ _ _ _ _ Hs) as (b & ms & tr & _ & _ & Hb & _ & Hit & _ & Hev).
+    assert (Hev1 : map (fun c => (c_iter _ _ _ c, c_evidence _ _ _ c)) ev1
+                   = map (fun i => (i, None)) (cadence o (s_iter _ _ _ st) 1)).
+    { rewrite Hev. unfold maybe_checkpoint, cadence. cbn [seq filter]. rewrite Hit.
+      destruct (should_checkpoint N o false (S (s_iter _ _ _ st))); cbn; rewrite ?Hit; reflexivity. }
+    destruct brk.
+    - inversion H; subst; clear H. exists 1. split; [lia|]. split; [discriminate|exact Hev1].
+    - destruct (LOOP f o st1) as [[st2 ev2]| |] eqn:Hl; try discriminate.
+      inversion H; subst; clear H.
+      destruct (IH _ _ _ _ Hl) as (n & Hn & Hne & Hev2).
+      exists (1 + n). split; [lia|]. split; [lia|].
+      rewrite map_app, Hev1, Hev2. unfold cadence. rewrite Hit.
+      rewrite seq_app, filter_app, map_app.
+      replace (S (s_iter N P G st) + 1) with (S (S (s_iter N P G st))) by lia. reflexivity.
+  Qed.
+
+  Theorem resumed_cadence fuel o c out evs :
+    RESUMED fuel o c = Ok (out, evs) ->
+    resumed_skips_loop N P G o (restore N P G o c) = false ->
+    c_iter _ _ _ c < o_iter _ _ _ out
+    /\ map (fun c => (c_iter _ _ _ c, c_evidence _ _ _ c)) evs
+       = map (fun i => (i, None)) (cadence o (c_iter _ _ _ c) (o_iter _ _ _ out - c_iter _ _ _ c))
+         ++ (if has_callback _ o
+             then [(o_iter _ _ _ out, Some (o_log_evidence _ _ _ out, o_log_evidence_error _ _ _ out))] else []).
+  Proof.
+    unfold sample_resumed, run_from. intros H Hskip. rewrite Hskip in H.
+    destruct (LOOP fuel o (restore N P G o c)) as [[stf ev1]| |] eqn:Hl; try discriminate.
+    destruct (FINISH o stf) as [out' ev2] eqn:Hf. inversion H; subst; clear H.
+    destruct (loop_cadence _ _ _ _ _ Hl) as (n & Hn & Hne & Hev).
+    apply finish_spec in Hf as (_ & _ & F3 & _ & _ & _ & _ & _ & _ & _ & F11).
+    cbn [restore s_iter] in Hn, Hev. rewrite F3, Hn.
+    split; [lia|].
+    replace (c_iter N P G c + n - c_iter N P G c) with n by lia.
+    rewrite map_app, Hev, F11, Hn. reflexivity.
+  Qed.
+
 End Generic.
 
 (* ---------- more generic facts used by the real-number development ---------- *)
